@@ -117,7 +117,11 @@ Inductive case :=
   (* the same over an explicit store: entries with their own AD bit and alias links (straight, looping, re-spelled) *)
 | CaseChase (q : creq) (st : cstore) (qname : N) (o : ochase)
   (* a resolver verdict written through the cache's ResponseWriter: what each CD partition holds afterwards *)
-| CaseFiled (verdict_ad req_cd : bool) (part0 part1 : option bool).
+| CaseFiled (verdict_ad req_cd : bool) (part0 part1 : option bool)
+  (* Resolver.Resolve walking from the root hints: the responses the zones' servers served, in order, and the outcome; what
+     the delegation cache then holds per zone (DS set as (type, rdata id) pairs); the same question resolved again *)
+| CaseDescent (d : envd) (qname : name) (qtype : N) (cd : bool) (served1 : list msg) (o1 : obs)
+              (cache : list (name * option (list (N * N)))) (served2 : list msg) (o2 : obs).
 
 Definition opt_err_eqb (a b : option err) : bool :=
   match a, b with
@@ -196,6 +200,19 @@ Definition check_case (c : case) : bool :=
       let '(m0, m1) := file_verdict v cd in
       match m0, p0 with Some a, Some b => Bool.eqb a b | None, None => true | _, _ => false end &&
       match m1, p1 with Some a, Some b => Bool.eqb a b | None, None => true | _, _ => false end
+  | CaseDescent d q t cd s1 o1 cache s2 o2 =>
+      let E := env_of d in
+      let r1 := resolve_from_cache E q t cd [] s1 in
+      let r2 := resolve_from_cache E q t cd (dr_cache r1) s2 in
+      (* the walk consumes exactly what was served and ends as the code did *)
+      obs_eqb (dr_out r1) o1 && (dr_left r1 =? 0)%nat &&
+      (* the delegation cache holds, per cut crossed, the DS set validate_delegation returned there *)
+      forallb (fun zo => match dc_find (dr_cache r1) (fst zo), snd zo with
+                         | Some ds, Some l => pairs_eqb (ids ds) l
+                         | None, None => true
+                         | _, _ => false end) cache &&
+      (* the second walk starts at the deepest cached cut with the DS set filed there *)
+      obs_eqb (dr_out r2) o2 && (dr_left r2 =? 0)%nat
   end.
 
 (* ---- specification oracles ---- *)
@@ -351,4 +368,20 @@ Definition spec_case (c : case) : bool :=
   | CaseFiled v cd p0 p1 =>
       (* a validating (CD=0) reader only ever meets a bit the resolver set for a CD=0 request *)
       match p0 with Some a => negb cd && Bool.eqb a v | None => cd end
+  | CaseDescent d q t cd s1 o1 cache s2 o2 =>
+      let ad_of := fun o => match o with OAccept ad _ _ _ => ad | OFail _ => false end in
+      let no_data := fun o => match o with OFail _ => true | OAccept _ _ [] [] => true | OAccept _ _ _ _ => false end in
+      (* AD on the reply of a walk from the root: the client did not set CD, an anchor exists, and EVERY referral crossed
+         handed down a DS RRset for the zone it delegates — read off the transcript, without running any validator *)
+      (if ad_of o1 then negb cd && match d_anchors d with [] => false | _ => true end &&
+                        forallb (fun m => match m_ans m, first_ns (m_ns m) with
+                                          | [], Some f => has_soa (m_ns m) ||
+                                                          match extract (m_ns m) (Some (r_owner f)) T_DS with [] => false | _ => true end
+                                          | _, _ => true end) s1
+       else true) &&
+      (* the walk that starts from the delegation cache meets the same servers: it is never MORE authenticated *)
+      (if ad_of o2 then ad_of o1 else true) &&
+      (* a DS set is filed with a cut only by a walk that had an anchor or whose client set CD *)
+      (if negb cd && d_dnssec d && match d_anchors d with [] => true | _ => false end
+       then no_data o1 && no_data o2 && forallb (fun zo => match snd zo with None => true | Some _ => false end) cache else true)
   end.
